@@ -143,7 +143,7 @@ class C18(object):
             'violation; distinct = hash of case; non-trivial = >= 1 code actually changed / >= 2 economies')
     assumptions = ['governments take no goods name: for a renamed goods market the spec wires DEM_GOOD = DEM_<new> on the '
                    'government, as the bundled REG model does', 'MON and DEP market codes keep their defaults']
-    required_counters = ('rename.compared', 'embed.compared', 'embed_book.compared', 'builds.compared_exactly')
+    required_counters = ('rename.compared', 'rename.compared.market_code_of_prefix_characters', 'embed.compared', 'embed_book.compared', 'builds.compared_exactly')
 
     def n_cases(self, tier):
         return 24 if tier == 'quick' else 600
@@ -211,6 +211,8 @@ class C18(object):
             other_view.names = [n for n in other_E.names if n not in extra]
             compare_exact(rec, base, base_E, other, other_view, ctx, name_map=f)
             rec.count('rename.compared')
+            if any(cm.get(r) in PREFIX_CHARS for cm in case['codes'].values() for r in ('GOOD', 'LAB')):
+                rec.count('rename.compared.market_code_of_prefix_characters')
         return {'verdict': 'violated' if rec.violations else 'held', 'nontrivial': changed >= 1, 'evals': 2,
                 'shape': shape, 'counters': rec.counters, 'violations': rec.violations[:4],
                 'obs': {'codes': case['codes'], 'countries': case['ckey_map'], 'n_vars': len(base_E.names)}}
